@@ -227,4 +227,16 @@ def x86(ex, b, rty, args):
             inr = z3.And(z3.Not(z3.fpIsNaN(v.fp)), z3.fpLT(z3.fpRoundToIntegral(rm, v.fp), z3.FPVal(2.0 ** 31, F)), z3.fpGEQ(z3.fpRoundToIntegral(rm, v.fp), z3.FPVal(-2.0 ** 31, F)))
             out.append(z3.If(inr, z3.fpToSBV(rm, v.fp, z3.BitVecSort(32)), bv(0x80000000, 32)))
         return out
+    if b in ('x86.sse3.hadd.ps', 'x86.sse3.hsub.ps'):
+        f = z3.fpAdd if 'hadd' in b else z3.fpSub; x, y = args[0], args[1]
+        return [FV(32, fp=f(RNE, x[0].fp, x[1].fp)), FV(32, fp=f(RNE, x[2].fp, x[3].fp)), FV(32, fp=f(RNE, y[0].fp, y[1].fp)), FV(32, fp=f(RNE, y[2].fp, y[3].fp))]
+    if b.startswith('x86.ssse3.psign.'):
+        return [z3.If(y < 0, -x, z3.If(y == 0, bv(0, x.size()), x)) for x, y in zip(args[0], args[1])]
+    if b in ('x86.sse.movmsk.ps', 'x86.sse2.movmsk.pd'):
+        r = bv(0, 32)
+        for i, v in enumerate(args[0]):
+            n = v.n; r = r | (z3.ZeroExt(31, z3.Extract(n - 1, n - 1, v.bits)) << i)
+        return r
+    if b == 'x86.sse41.ptestz':
+        x, y = args[0], args[1]; return z3.If(z3.And(*[(p & q) == 0 for p, q in zip(x, y)]), bv(1, 32), bv(0, 32))
     raise Unsupported('x86 intrinsic ' + b)
